@@ -308,20 +308,36 @@ def run_indep(desc, M):
     truth_edges = {tuple(e) for e in desc["edges"]}
     mem = mec_members(n, list(truth_edges))
     idx = {names[i]: i for i in range(n)}
-    pdag = est.estimate(variant=desc["variant"], ci_test="independence_match", max_cond_vars=n, return_type="pdag", show_progress=False, n_jobs=1)
+    # the documented CI test for this entry point, wrapped only to OBSERVE its answers: an answer that contradicts d-separation in the ground
+    # truth means Independencies.closure()/entails is wrong for this list (the recorded C18 finding), not PC
+    from pgmpy.estimators.CITests import independence_match
+    E = {(u, v): ((u, v) in truth_edges) for u in range(n) for v in range(u + 1, n)}
+    wrong = []
+
+    def ci(u, v, Zs, **kw):
+        got = bool(independence_match(u, v, Zs, **kw))
+        want = not O.eval_bool(O.dconnected_def(E, n, idx[u], idx[v], {idx[z] for z in Zs}))
+        if got != want:
+            wrong.append((u, v, tuple(Zs), got))
+        return got
+
+    def K(label):
+        return "indep:known-independence-list-entailment-wrong" if wrong else None
+    pdag = est.estimate(variant=desc["variant"], ci_test=ci, max_cond_vars=n, return_type="pdag", show_progress=False, n_jobs=1)
     dire = [(idx[u], idx[v]) for u, v in pdag.directed_edges]
     und = list({tuple(sorted((idx[u], idx[v]))) for u, v in pdag.undirected_edges})
     adj = {frozenset(e) for e in dire} | {frozenset(e) for e in und}
-    M.check(adj == {frozenset(e) for e in truth_edges}, "independencies=: skeleton", detail=f"{adj} vs {truth_edges}")
-    M.check(is_acyclic(n, dire), "independencies=: no directed cycle", detail=str(dire))
+    why = f" (independence_match answered {wrong[0]} against d-separation)" if wrong else ""
+    M.check(adj == {frozenset(e) for e in truth_edges}, "independencies=: skeleton", detail=f"{adj} vs {truth_edges}{why}", key=K("s"))
+    M.check(is_acyclic(n, dire), "independencies=: no directed cycle", detail=str(dire), key=K("c"))
     for d in dire:
-        M.check(all(d in m for m in mem), "independencies=: directed edges compelled", detail=f"{d} truth {sorted(truth_edges)}")
+        M.check(all(d in m for m in mem), "independencies=: directed edges compelled", detail=f"{d} truth {sorted(truth_edges)}{why}", key=K("d"))
     for (i, j) in und:
         M.check(any((i, j) in m for m in mem) and any((j, i) in m for m in mem), "independencies=: undirected edges reversible",
-                detail=f"{(i, j)} truth {sorted(truth_edges)}")
-    dag = est.estimate(variant=desc["variant"], ci_test="independence_match", max_cond_vars=n, return_type="dag", show_progress=False, n_jobs=1)
+                detail=f"{(i, j)} truth {sorted(truth_edges)}{why}", key=K("u"))
+    dag = est.estimate(variant=desc["variant"], ci_test=ci, max_cond_vars=n, return_type="dag", show_progress=False, n_jobs=1)
     es = {(idx[u], idx[v]) for u, v in dag.edges()}
-    M.check(es in mem, "independencies=: returned DAG in the equivalence class", detail=f"{sorted(es)} truth {sorted(truth_edges)}")
+    M.check(es in mem, "independencies=: returned DAG in the equivalence class", detail=f"{sorted(es)} truth {sorted(truth_edges)}{why}", key=K("m"))
 
 
 def decode_pdag(n, code):
